@@ -524,17 +524,20 @@ class An(ResultQuantifier[T]):
 
     def evaluate(self) -> Iterable[TypingUnion[T, Dict[TypingUnion[T, SymbolicExpression[T]], T]]]:
         results = map(self._process_result_, self._evaluate__())
-        while True:
-            # Symbolic mode is switched off only while the next result is computed, never while this iterator is
-            # suspended at a yield, so the caller's mode is untouched between results and whenever the iterator is
-            # closed or dropped.
-            with symbolic_mode(mode=None):
-                try:
-                    result = next(results)
-                except StopIteration:
-                    break
-            yield result
-        self._reset_cache_()
+        try:
+            while True:
+                # Symbolic mode is switched off only while the next result is computed, never while this iterator is
+                # suspended at a yield, so the caller's mode is untouched between results and whenever the iterator is
+                # closed or dropped.
+                with symbolic_mode(mode=None):
+                    try:
+                        result = next(results)
+                    except StopIteration:
+                        break
+                yield result
+        finally:
+            # also when the iterator is abandoned or user code raised: the next evaluation must start from a clean state.
+            self._reset_cache_()
 
     def _evaluate__(self, sources: Optional[Dict[int, HashedValue]] = None, yield_when_false: bool = False) -> Iterable[T]:
         sources = sources or {}
